@@ -194,8 +194,30 @@ impl Node {
         self.shared.snapshot().total_difficulty().clone()
     }
 
+    /// Delivers a block and waits for its verdict.  A verdict that never comes (the verify callback is
+    /// lost: the caller of blocking_process_block would hang for good) is turned into an error that carries
+    /// what the node says about the block and its parent.
     pub fn process(&self, block: &BlockView) -> VerifyResult {
-        self.chain().blocking_process_block(Arc::new(block.clone()))
+        let rx = self.deliver(block);
+        let limit = std::time::Duration::from_secs(hx_common::env_u64("HX_PROCESS_TIMEOUT", 180));
+        match rx.recv_timeout(limit) {
+            Ok(r) => r,
+            Err(_) => {
+                use ckb_store::ChainStore;
+                let ph = block.parent_hash();
+                let snap = self.shared.snapshot();
+                let diag = format!(
+                    "block {}-{:x} parent {:x}: status(block)={:?} status(parent)={:?} parent_in_header_map={} snapshot.ext(parent)={:?} store.ext(parent)={:?} store.header(parent)={} store.header(block)={} snapshot tip {}-{:x} store tip {:?} unverified tip {}",
+                    block.number(), block.hash(), ph,
+                    self.shared.get_block_status(&block.hash()), self.shared.get_block_status(&ph),
+                    self.shared.header_map().contains_key(&ph),
+                    snap.get_block_ext(&ph).map(|e| e.verified), self.shared.store().get_block_ext(&ph).map(|e| e.verified),
+                    self.shared.store().get_block_header(&ph).is_some(), self.shared.store().get_block_header(&block.hash()).is_some(),
+                    snap.tip_number(), snap.tip_hash(), self.shared.store().get_tip_header().map(|h| h.number()),
+                    self.shared.get_unverified_tip().number());
+                Err(ckb_error::InternalErrorKind::System.other(format!("HX-NO-VERDICT within {} s: {diag}", limit.as_secs())).into())
+            }
+        }
     }
 
     /// asynchronous delivery; the receiver gets the verdict when (if) the block is processed
